@@ -298,6 +298,13 @@ func c20Oracle(discover bool) func(tr *mc.Trace) []h.Violation {
 				ret, retT = &c, e.T
 			case Ev:
 				injs = append(injs, inj{e.T, x})
+			case Census:
+				// "release their socket before returning": a receiver goroutine of the call's socket that is
+				// still alive one timeout after the call returned keeps the connection object, its buffer
+				// and a decoded frame for ever (the socket's Close ends its receiver since fix c31cc9f)
+				if x.N > 0 {
+					bad("receiver-left-behind", "%d library goroutine(s) of the call are still alive one timeout after it returned: %s", x.N, x.Desc)
+				}
 			}
 		}
 		if ret == nil {
@@ -432,6 +439,10 @@ func c20Oracle(discover bool) func(tr *mc.Trace) []h.Violation {
 
 func init() {
 	register("both", &h.Scenario{Name: "C20-describe-2slots", Prop: "C20", Cfg: mc.Config{SpinLimit: 400}, P: 1, F: 0, D: 1, Run: c20Describe(2), Check: c20Oracle(false)})
+	// one responder, deeper schedules: the receiver goroutine holds a frame it has read but not yet
+	// offered at the very moment the call gives up and closes the socket
+	register("both", &h.Scenario{Name: "C20-describe-1slot-P2", Prop: "C20", Cfg: mc.Config{SpinLimit: 400}, P: 2, F: 0, D: 3, Run: c20Describe(1), Check: c20Oracle(false)})
+	register("both", &h.Scenario{Name: "C20-discover-1slot-P2", Prop: "C20", Cfg: mc.Config{SpinLimit: 400}, P: 2, F: 0, D: 3, Run: c20Discover(1, 0), Check: c20Oracle(true)})
 	register("both", &h.Scenario{Name: "C20-describe-4slots", Prop: "C20", Cfg: mc.Config{SpinLimit: 400}, P: 0, F: 0, D: -1, Run: c20Describe(4), Check: c20Oracle(false)})
 	register("both", &h.Scenario{Name: "C20-discover-2slots", Prop: "C20", Cfg: mc.Config{SpinLimit: 400}, P: 1, F: 0, D: 1, Run: c20Discover(2, 0), Check: c20Oracle(true)})
 	register("both", &h.Scenario{Name: "C20-discover-4slots", Prop: "C20", Cfg: mc.Config{SpinLimit: 400}, P: 0, F: 0, D: -1, Run: c20Discover(4, 0), Check: c20Oracle(true)})
